@@ -545,6 +545,17 @@ fn format_directive<'entry>(
             }
         }
 
+        // %y agrees with -type: under -L (or -H for a starting point) a link that
+        // can be resolved is reported as its target.
+        FormatDirective::Type {
+            follow_links: false,
+        } => match file_info.file_type() {
+            FileType::Symlink => 'l',
+            file_type => format_non_link_file_type(file_type),
+        }
+        .to_string()
+        .into(),
+
         FormatDirective::Type { follow_links } => if file_info.path_is_symlink() {
             if *follow_links {
                 match file_info.path().metadata().map_err(WalkError::from) {
